@@ -214,7 +214,7 @@ impl Scenario for GradStreams {
             let nc = g.usize(2, 5);
             return json!({"kind": *g.pick(&["hmc_nd_f32", "hmc_nd_f64"]), "dim": dim, "n_chains": nc, "seeded": g.bool(2, 3), "seed": crate::props::c07::special_seed(g, nc).to_string()});
         }
-        json!({"kind": *g.pick(&["hmc_f32", "hmc_f64", "nuts_f32", "nuts_f64"]), "n_chains": nc, "seeded": g.bool(2, 3), "seed": crate::props::c07::special_seed(g, nc).to_string()})
+        json!({"kind": *g.pick(&["hmc_f32", "hmc_f64", "nuts_f32", "nuts_f64"]), "n_chains": nc, "seeded": g.bool(2, 3), "seed": crate::props::c07::special_seed(g, nc).to_string(), "history": g.bool(1, 2)})
     }
     fn execute(&self, p: &Value, ws: bool) -> Outcome {
         let mut o = Outcome::default();
@@ -230,6 +230,8 @@ impl Scenario for GradStreams {
         let mut mom_rows: Vec<Vec<u64>> = vec![];
         let mut traj: Vec<Vec<u64>> = vec![];
         let dim = p.get("dim").and_then(|v| v.as_u64()).unwrap_or(2) as usize;
+        let history = p.get("history").and_then(|v| v.as_bool()).unwrap_or(false);
+        o.count("probe_two_call_history", history as u64);
         mcmc_sim::trace::start();
         match kind {
             "hmc_nd_f32" | "hmc_nd_f64" => {
@@ -301,8 +303,18 @@ impl Scenario for GradStreams {
                         s = s.set_seed(seed);
                     }
                     let rngs: Vec<SmallRng> = s.verif_chains().iter().map(|c| c.verif_rng().clone()).collect();
+                    let mut eq = first_pair_equal(&rngs);
+                    if history {
+                        // a first call that makes no transition (the chains stay at their common start), then the judged run
+                        let _ = s.run(1, 0);
+                    }
                     let (b, sh) = crate::zoo::tensor_bits(&s.run(3, 1));
-                    (b, sh, first_pair_equal(&rngs))
+                    if history && eq.is_none() {
+                        // the streams are still distinct after the second call has (re-)initialised the chains
+                        let after: Vec<SmallRng> = s.verif_chains().iter().map(|c| c.verif_rng().clone()).collect();
+                        eq = first_pair_equal(&after);
+                    }
+                    (b, sh, eq)
                 } else {
                     let t = DiffableGaussian2D::new([0.0f64, 1.0], [[4.0, 2.0], [2.0, 3.0]]);
                     let mut s = NUTS::<f64, BF64, _>::new(t, vec![vec![0.5f64, 0.5]; nc], 0.8);
@@ -310,8 +322,18 @@ impl Scenario for GradStreams {
                         s = s.set_seed(seed);
                     }
                     let rngs: Vec<SmallRng> = s.verif_chains().iter().map(|c| c.verif_rng().clone()).collect();
+                    let mut eq = first_pair_equal(&rngs);
+                    if history {
+                        // a first call that makes no transition (the chains stay at their common start), then the judged run
+                        let _ = s.run(1, 0);
+                    }
                     let (b, sh) = crate::zoo::tensor_bits(&s.run(3, 1));
-                    (b, sh, first_pair_equal(&rngs))
+                    if history && eq.is_none() {
+                        // the streams are still distinct after the second call has (re-)initialised the chains
+                        let after: Vec<SmallRng> = s.verif_chains().iter().map(|c| c.verif_rng().clone()).collect();
+                        eq = first_pair_equal(&after);
+                    }
+                    (b, sh, eq)
                 };
                 let ev = mcmc_sim::trace::stop();
                 if let Some((i, j)) = rngs_equal {
